@@ -27,7 +27,7 @@ func genC35(t *rapid.T) C35Case {
 	c := C35Case{WL: wl, Par: rapid.IntRange(1, 4).Draw(t, "par")}
 	c.Roots = genRequest(t, wl.names())
 	c.Steps = genEditSteps(t, &wl, rapid.IntRange(1, 5).Draw(t, "nsteps"))
-	c.Sched = Sched{Tape: genTape(t, 500), Disabled: genDisabled(t, incrOptional)}
+	c.Sched = Sched{Tape: genTape(t, 500), Disabled: genDisabled(t, incrOptional), PCT: genPCT(t, 200)}
 	return c
 }
 
